@@ -528,5 +528,7 @@ def run_job(job, coll):
         for idx, p in enumerate(pts):
             if idx % job["of"] == job["shard"]:
                 coll.check(dict(base, preempt={str(p): 1}), run_case)
+                if idx % 2 == 0:
+                    coll.check(dict(base, preempt={str(p): [1, 10]}), run_case)  # the preempted thread held back for ten decisions
         coll.exhaustive[f"single preemption points of fixed scenario {job['fixed']} (stride {job['stride']})"] = job["stride"] == 1
         coll.notes[f"line_steps_scenario_{job['fixed']}"] = n_steps
